@@ -33,7 +33,9 @@ pub fn records(n: usize) -> Vec<(Revision, Option<Revision>)> {
             recs.push((Revision::new(1u32, digest(), None), None));
         } else if k == 1 {
             // child of a revision that is not recorded
-            let ghost = Revision::new_updated(digest(), &Revision::new(1u32, "g", None));
+            // (the unrecorded parent is either an update or itself a creation revision)
+            let base = Revision::new(1u32, "g", None);
+            let ghost = if sym::any_bool() { base } else { Revision::new_updated(digest(), &base) };
             recs.push((Revision::new_updated(digest(), &ghost), Some(ghost)));
         } else {
             let j = (k - 2) / 3;
